@@ -215,6 +215,26 @@ MUTANTS = [
 ]
 
 REFACTORS = [
+    ("C18-is-source-de-morgan", "", "is_source rewritten with a correct De Morgan form and a match",
+     [(SQ + "checked_actions/ics20_withdrawal.rs",
+       "    if let Denom::TracePrefixed(trace) = asset {\n        !trace.has_leading_port(source_port) || !trace.has_leading_channel(source_channel)\n    } else {\n        false\n    }",
+       "    match asset {\n        Denom::TracePrefixed(trace) => {\n            !(trace.has_leading_port(source_port) && trace.has_leading_channel(source_channel))\n        }\n        Denom::IbcPrefixed(_) => false,\n    }", 0)]),
+    ("C04-swap-asset-guard", "", "asset guard of emit_deposit with swapped operands",
+     [(SQ + "ibc/ics20_transfer.rs", "        allowed_asset == asset.to_ibc_prefixed(),\n",
+       "        asset.to_ibc_prefixed() == allowed_asset,\n", 0)]),
+    ("C06-swap-commitment-compare", "", "commitment comparisons with swapped operands",
+     [(SQ + "app/mod.rs", "                expanded_block_data.rollup_transactions_root == expected_rollup_datas_root,",
+       "                expected_rollup_datas_root == expanded_block_data.rollup_transactions_root,", 0),
+      (SQ + "app/mod.rs", "                expanded_block_data.rollup_ids_root == expected_rollup_ids_root,",
+       "                expected_rollup_ids_root == expanded_block_data.rollup_ids_root,", 0)]),
+    ("C07-iterate-map-pairs", "", "FilteredSequencerBlock audit loop iterates (id, entry) pairs of the served map",
+     [(CO + "sequencerblock/v1/block/mod.rs", "        for rollup_transactions in rollup_transactions.values() {\n            if !super::do_rollup_transactions_match_root(\n                rollup_transactions,",
+       "        for (_, rollup_txs) in &rollup_transactions {\n            let rollup_transactions = rollup_txs;\n            if !super::do_rollup_transactions_match_root(\n                rollup_transactions,", 0)]),
+    ("C13-get-is-none", "", "TransactionsForAccount::remove tests absence with get(..).is_none()",
+     [(SQ + "mempool/transactions_container.rs", "        if !self.txs().contains_key(&nonce) {\n            error!(nonce, \"transaction with given nonce not found\");",
+       "        if self.txs().get(&nonce).is_none() {\n            error!(nonce, \"transaction with given nonce not found\");", 0)]),
+    ("C17-swap-length-compare", "", "address length check with swapped operands",
+     [("crates/astria-core-address/src/lib.rs", "    if iter.len() != ADDRESS_LENGTH {", "    if ADDRESS_LENGTH != iter.len() {", 0)]),
     ("C08-geometry-respelled", "", "re-attached right child computed in a different but equal spelling",
      [(MK + "lib.rs",
        "        let i_plus_one = i.checked_add(1).unwrap();\n        let root = complete_root(n.checked_sub(i_plus_one).unwrap());\n        i_plus_one.checked_add(root).unwrap()",
